@@ -9,7 +9,8 @@ from tools.check import MachineryError
 
 ALL_OPS = ["id", "hdrflip", "short", "subtype", "hdr", "in_e", "after_e", "in_s", "after_s", "in_p",
            "flip_s", "flip_p", "idx", "sub_e", "bad_e", "splice_e", "splice_p"]
-ALL_PK = ["full", "empty", "junk", "nocert", "noidx", "zeroidx"]
+ALL_PK = ["full", "empty", "junk", "nocert", "noidx", "zeroidx", "keep", "swap"]   # keep/swap: complete certificate (own key / adversary's key embedded)
+CERT_OPS = ["cert_keep", "cert_swap", "cert_strip"]   # certificate form surgery on a clear payload
 ALL_ADV = ["M", "U", "X", "L", "K"]
 INVARIANTS = "TypeOK C05_Auth C05_Secrecy C06_Agree C06_Exclusive C07_RejectClean"
 
@@ -104,6 +105,16 @@ def asis_refuted(ctx, cfgtext):
     ctx.extra['model_of_unchanged_library_refutes'] = 'C07_RejectClean'
 
 
+def nobind_refuted(ctx, cfgtext):
+    """A reader that takes a complete certificate as it was sent and does not compare its key with the Noise static
+    (Impl = "nobind") must violate C05_Auth: the certificate-form dimension of the adversary has teeth. Not a verdict."""
+    r = ctx.tlc('Handshake', 'MC_Handshake_nobind_run.cfg', cfgtext=cfgtext, expect_ok=False, count=False, timeout=300)
+    if r['violated'] != 'C05_Auth':
+        raise MachineryError('Handshake.tla with Impl="nobind" was expected to violate C05_Auth, TLC says: violated=%s rc=%s\n%s'
+                             % (r['violated'], r['rc'], r['out'][-1500:]))
+    ctx.extra['model_without_key_binding_refutes'] = 'C05_Auth'
+
+
 def finish(ctx, res, what):
     ctx.take_mismatches(res)
     ctx.extra[what] = (res.get('extra') or {})
@@ -113,7 +124,11 @@ RULE = ("MC: TLC checks C05_Auth/C05_Secrecy (and the other invariants) on Hands
         "initiator and responder under 5 identity classes, 6 payload shapes and the delivery operations. R: the state graphs of three "
         "sub-configurations (adversary initiator vs honest responder; honest initiator vs adversary responder; honest pair under "
         "replay/splice) are walked on real Machines for 2 curves x 2 ciphers until every (state, label) pair was executed; distinct = "
-        "(graph, combo, state, label). D: content tables without certificate (requireComplete). T: seeded random schedules (up to 3+4 honest machines, 4 adversary machines, byte-level random "
+        "(graph, combo, state, label). Certificate FORM is a dimension of its own: the adversary's machines send the presented certificate "
+        "stripped, complete with its own key, or complete with the adversary's key (v1 and v2 encodings, both curves), and the network embeds/"
+        "replaces/strips the key of a clear stage-1 certificate; a completion is allowed only if the assembled certificate's key is the Noise "
+        "static (where a complete certificate's own key IS the Noise static, completing and refusing are both allowed); the variant without "
+        "that binding (Impl=\"nobind\") must be refuted. D: content tables without certificate (requireComplete). T: seeded random schedules (up to 3+4 honest machines, 4 adversary machines, byte-level random "
         "truncations/flips) judged by the reference predicates")
 ASSUMPTIONS = [
     "verdicts are one-directional (safety): every completion the real code makes must be allowed by the specification; a refusal "
@@ -124,17 +139,20 @@ ASSUMPTIONS = [
     "header fields other than length and subtype are not interpreted by handshake.Machine (the manager level is C09/C10)",
 ]
 
-C05_OPS = ["id", "hdrflip", "hdr", "after_s", "flip_p", "flip_s", "idx", "sub_e", "splice_e", "splice_p"]
+C05_OPS = ["id", "hdrflip", "hdr", "after_s", "flip_p", "flip_s", "idx", "sub_e", "splice_e", "splice_p"] + CERT_OPS
 
 
 def run(ctx):
     vcs = (1, 3) if ctx.quick else (1, 2, 3, 4, 5)
     # MC: the combined configuration (all four slots at once) - invariants only
     if ctx.quick:
-        big = cfg(AI=("XI",), AR=("XR",), adv=("M", "K", "U"), vcs=(1,), ops=["id", "flip_p", "idx", "splice_e", "splice_p"], pk=("full", "empty", "nocert"))
+        big = cfg(AI=("XI",), AR=("XR",), adv=("M", "K", "U"), vcs=(1,), ops=["id", "flip_p", "idx", "splice_e", "splice_p", "cert_keep"],
+                  pk=("full", "empty", "nocert", "keep"))
     else:
-        big = cfg(AI=("XI",), AR=("XR",), adv=ALL_ADV, vcs=(1, 4), ops=["id", "hdr", "after_s", "flip_p", "idx", "sub_e", "splice_e", "splice_p"], pk=ALL_PK)
+        big = cfg(AI=("XI",), AR=("XR",), adv=ALL_ADV, vcs=(1, 4), ops=["id", "hdr", "after_s", "flip_p", "idx", "sub_e", "splice_e", "splice_p"] + CERT_OPS, pk=ALL_PK)
     ctx.tlc('Handshake', 'MC_Handshake_c05_all_run.cfg', cfgtext=big, timeout=1500)
+    nobind_refuted(ctx, cfg(AI=("XI",), AR=("XR",), adv=("K",), vcs=(1,), ops=["id"], pk=("full", "keep"), impl="nobind",
+                            scns=("advinit", "advresp")))
     graphs = [build_graph(ctx, 'c05', cfg(HI=("I1",), HR=("R1",) if ctx.quick else ("R1", "RA"), AI=("XI",), AR=("XR",), adv=ALL_ADV,
                                           vcs=vcs, ops=C05_OPS, pk=ALL_PK, scns=("advinit", "advresp", "pair")))]
     # one long-lived Credential per identity: an honest session first, then the adversary (K: the honest peer's certificate
@@ -147,7 +165,10 @@ def run(ctx):
     res = ctx.gotest('handshake', 'TestVerif_C05', also=('hs',), timeout=1500)
     finish(ctx, res, 'harness')
     if not ctx.violations:      # vacuity only matters for a run that reports no disagreement
-        ctx.require_actions('Deliver', 'AdvInit', 'AdvResp', 'Initiate', 'complete', 'matrix', 'T:Deliver', 'T:complete', 'table:nothing')
+        ctx.require_actions('Deliver', 'AdvInit', 'AdvResp', 'Initiate', 'complete', 'matrix', 'T:Deliver', 'T:complete', 'table:nothing',
+                            # the certificate-form dimension: complete certificates reached a reader in both roles, form surgery ran
+                            'pk:keep', 'pk:swap', 'form:keep->stage1-reader', 'form:keep->stage2-reader', 'form:swap->stage1-reader',
+                            'form:swap->stage2-reader', 'op:cert_keep', 'op:cert_swap', 'op:cert_strip')
 
 
 META = {
